@@ -68,6 +68,7 @@ fn main() {
         ("c14", "record") => c14::record(rest),
         ("c15", "replay") => c15::replay(stdin_lines()),
         ("c12", "replay") => c12::replay(rest[0].parse().unwrap(), stdin_lines()),
+        ("c12", "real") => c12::replay_real(rest[0].parse().unwrap(), rest[1].parse().unwrap(), stdin_lines()),
         (p, m) => {
             eprintln!("unknown property/mode {p} {m}");
             std::process::exit(2);
